@@ -231,7 +231,17 @@ def access_cases(draw):
 
 @st.composite
 def mapping_cases(draw):
-    case = draw(gen.map_cases(max_cells=16))
+    if draw(st.booleans()):
+        case = draw(gen.map_cases(max_cells=16))
+    else:
+        # the same recipe as gen.map_cases with a larger query (>100 stored entries, so that the
+        # CSC conversion at the minimum budget works in several blocks)
+        tree = draw(gen.trees(max_levels=3, max_leaves=8))
+        ref = draw(gen.ref_specs(tree, min_genes=14, max_genes=24))
+        markers = draw(gen.marker_tables(tree, ref['genes']))
+        query = draw(gen.query_specs(ref['genes'], must_include=(markers['None'][0],), min_cells=10, max_cells=24))
+        cfg = draw(gen.map_configs(tree, len(query['cells'])))
+        case = {'tree': tree, 'ref': ref, 'markers': markers, 'query': query, 'cfg': cfg}
     return {'kind': 'M', 'case': case}
 
 
